@@ -108,6 +108,42 @@ Theorem C14_ie_lost_refuted : type_to_sheet tax_tables_ie LOST = None ->
   exists i, rd_rinput f4_code = Some (Ok i, []) /\ tax_report tax_tables_ie i = Err EInternal.
 Proof. exact ie_lost_refuted. Qed.
 
+(** [append_rows(MIN_ROWS + count + 1)]: at least one row is appended per fraction of the type *)
+Theorem C14_us_append_rows_sufficient : append_ok tax_tables_us.
+Proof. exact us_append_ok. Qed.
+Theorem C14_ie_append_rows_sufficient : append_ok tax_tables_ie.
+Proof. exact ie_append_ok. Qed.
+
+(** capacity and lookups: with consistent tables and a sufficient sizing expression the report is produced --
+    no KeyError, and no row beyond the rows appended to its sheet (IndexError), for any number of assets
+    sharing the sheets.  Hypotheses: ComputedData exists for every asset; the legend's method string is
+    defined (a one-entry schedule is keyed 1970: finding F10 belongs to C13/C16); the figures of the window's
+    fractions are defined ([mk_items]); every fraction's type has a sheet *)
+Theorem C14_report_produced : forall T i acs, tables_ok T = true -> append_ok T ->
+  computed_all i (rp_assets i) = Ok acs ->
+  (exists m, legend_method (rp_sched i) = Ok m) ->
+  (forall ac, In ac acs -> exists items, mk_items T (asset_sources i ac) = Ok items) ->
+  (forall ac g, In ac acs -> In g (cd_gls (snd ac)) -> type_to_sheet T (t_type (g_ev g)) <> None) ->
+  exists out, tax_report T i = Ok out.
+Proof. intros T i acs H A. exact (tax_report_total T (tables_ok_good T H) A i acs). Qed.
+
+(** the same for the two plugins, for inputs whose taxable events have types a taxable event can have;
+    the IE instance needs the IE map to be total (finding F4) *)
+Theorem C14_us_report_produced : forall i acs,
+  computed_all i (rp_assets i) = Ok acs ->
+  (exists m, legend_method (rp_sched i) = Ok m) ->
+  (forall ac, In ac acs -> exists items, mk_items tax_tables_us (asset_sources i ac) = Ok items) ->
+  (forall ac g, In ac acs -> In g (cd_gls (snd ac)) -> In (t_type (g_ev g)) taxable_types) ->
+  exists out, tax_report tax_tables_us i = Ok out.
+Proof. exact us_report_produced. Qed.
+Theorem C14_ie_report_produced : forall i acs,
+  computed_all i (rp_assets i) = Ok acs ->
+  (exists m, legend_method (rp_sched i) = Ok m) ->
+  (forall ac, In ac acs -> exists items, mk_items tax_tables_ie (asset_sources i ac) = Ok items) ->
+  (forall ac g, In ac acs -> In g (cd_gls (snd ac)) -> In (t_type (g_ev g)) taxable_types) ->
+  exists out, tax_report tax_tables_ie i = Ok out.
+Proof. exact ie_report_produced. Qed.
+
 Print Assumptions C14_us_tables_consistent.
 Print Assumptions C14_ie_tables_consistent.
 Print Assumptions C14_us_routing_total.
@@ -124,3 +160,8 @@ Print Assumptions C14_rows_pairwise_distinct.
 Print Assumptions C14_sheets_kept_and_contents.
 Print Assumptions C14_missing_type_fails.
 Print Assumptions C14_ie_lost_refuted.
+Print Assumptions C14_us_append_rows_sufficient.
+Print Assumptions C14_ie_append_rows_sufficient.
+Print Assumptions C14_report_produced.
+Print Assumptions C14_us_report_produced.
+Print Assumptions C14_ie_report_produced.
